@@ -44,6 +44,13 @@ type Op struct {
 	// (utf8 "x" for the declared int64): the cast fails on the first turn.
 	BadCast bool
 	WriteAhead int  // extra inputs written before reading the previous output
+	// AfterCancel: inputs the client still writes after its cancel batch before
+	// closing the input stream (the last of them another cancel batch when
+	// SecondCancel). No turn may run for them and the cancel hook runs once.
+	AfterCancel  int
+	SecondCancel bool
+	// ZeroRowAt: k+1 of the exchange input sent with zero rows (0 = none).
+	ZeroRowAt int
 	InputMeta  []hx.Meta
 	// Expect: filled by the generator/oracle helpers.
 	ExpectErr bool
@@ -99,6 +106,18 @@ type Session struct {
 	ShmSentCount int
 	ShmErr       error
 	advertised   bool
+	// Pipeline: how many following unary-shaped requests the client writes
+	// before it reads the response of the current one (0 = lockstep).
+	Pipeline   int
+	prewritten map[*Op]bool
+	// S2CCutAt >= 1: the server->client direction breaks after that many bytes
+	// (peer hang-up mid-response; the server's next write fails).
+	S2CCutAt int
+	// Connect, when set, supplies the client's end of a connection whose server
+	// side is run by someone else (a listener world); CanConnect is the guard
+	// the client waits on before calling it.
+	Connect    func() (*hx.Conn, error)
+	CanConnect func() bool
 }
 
 // resolve is the response-side hook: a shared-memory pointer batch is
@@ -138,22 +157,55 @@ func (s *Session) viaShm(b arrow.RecordBatch) arrow.RecordBatch {
 
 // Start spawns the server and client tasks.
 func (s *Session) Start(name string) {
-	s.CConn, s.SConn = hx.NewConnPair(name)
-	s.CConn.R.Frag, s.SConn.R.Frag = s.Frag, s.Frag
-	s.SConn.W.YieldOnWrite = s.YieldOnWrite
-	s.CConn.W.YieldOnWrite = s.YieldOnWrite
-	s.SConn.W.Log = &s.WireS2C
-	s.ServerTask = s.Sim.Spawn(name+".server", func() {
-		if s.Serve != nil {
-			s.Serve(context.Background(), s.SConn)
-		} else {
-			s.Srv.ServeWithContext(context.Background(), s.SConn, s.SConn)
+	s.prewritten = map[*Op]bool{}
+	if s.Connect == nil {
+		s.CConn, s.SConn = hx.NewConnPair(name)
+		s.CConn.R.Frag, s.SConn.R.Frag = s.Frag, s.Frag
+		s.SConn.W.YieldOnWrite = s.YieldOnWrite
+		s.CConn.W.YieldOnWrite = s.YieldOnWrite
+		s.SConn.W.Log = &s.WireS2C
+		if s.S2CCutAt > 0 {
+			s.SConn.W.CutAt = s.S2CCutAt
 		}
-		s.ServerReturned = true
-		_ = s.SConn.Close()
-	})
+		s.ServerTask = s.Sim.Spawn(name+".server", func() {
+			if s.Serve != nil {
+				s.Serve(context.Background(), s.SConn)
+			} else {
+				s.Srv.ServeWithContext(context.Background(), s.SConn, s.SConn)
+			}
+			s.ServerReturned = true
+			_ = s.SConn.Close()
+		})
+	}
 	s.ClientTask = s.Sim.Spawn(name+".client", func() {
-		for _, op := range s.Ops {
+		if s.Connect != nil {
+			// the server side is somebody else's (a listener world): wait until
+			// a connection can be made, then talk over it
+			if s.CanConnect != nil {
+				s.Sim.Yield("client.connect", s.CanConnect)
+			}
+			c, err := s.Connect()
+			if err != nil {
+				s.Results = append(s.Results, &OpResult{Op: &Op{Kind: "connect", Script: &hx.Script{}}, ClientErr: err})
+				s.ClientDone = true
+				return
+			}
+			s.CConn = c
+		}
+		for i, op := range s.Ops {
+			if s.Pipeline > 0 && op.Kind != "stream" {
+				// pipelining: the next requests go out before this response is read
+				if !s.prewritten[op] {
+					_ = s.write(s.requestBytes(op))
+					s.prewritten[op] = true
+				}
+				for j := 1; j <= s.Pipeline && i+j < len(s.Ops) && s.Ops[i+j].Kind != "stream"; j++ {
+					if nx := s.Ops[i+j]; !s.prewritten[nx] {
+						_ = s.write(s.requestBytes(nx))
+						s.prewritten[nx] = true
+					}
+				}
+			}
 			r := s.runOp(op)
 			s.Results = append(s.Results, r)
 			if r.ClientErr != nil {
@@ -166,7 +218,12 @@ func (s *Session) Start(name string) {
 }
 
 // Done reports whether both parties have finished.
-func (s *Session) Done() bool { return s.ServerTask.Done() && s.ClientTask.Done() }
+func (s *Session) Done() bool {
+	if s.ServerTask == nil {
+		return s.ClientTask.Done()
+	}
+	return s.ServerTask.Done() && s.ClientTask.Done()
+}
 
 // RequestBytes frames op's request (also used by the HTTP worlds, which post
 // the same bytes as the request body).
@@ -241,6 +298,8 @@ func inputBatch(op *Op, k int, cancel bool) arrow.RecordBatch {
 			b = hx.Int64Batch("x", nil, op.Cast)
 		} else if op.BadCast {
 			b = hx.StringBatch([]string{"x"}, []string{"not-a-number"})
+		} else if op.ZeroRowAt == k+1 {
+			b = hx.Int64Batch("x", []int64{}, op.Cast)
 		} else {
 			b = hx.Int64Batch("x", []int64{int64(k + 1), int64(10 * (k + 1))}, op.Cast)
 		}
@@ -260,15 +319,33 @@ func inputBatch(op *Op, k int, cancel bool) arrow.RecordBatch {
 	return b
 }
 
-// InputSum is the sum the exchange state computes for input k.
+// InputSum is the sum the exchange state computes for a regular input k.
 func InputSum(k int) int64 { return int64(k+1) + int64(10*(k+1)) }
+
+// SumOf is the sum the exchange state must compute for op's input k.
+func (op *Op) SumOf(k int) int64 {
+	if op.ZeroRowAt == k+1 {
+		return 0
+	}
+	return InputSum(k)
+}
+
+// InputValues are the values of op's exchange input k.
+func (op *Op) InputValues(k int) []int64 {
+	if op.ZeroRowAt == k+1 {
+		return []int64{}
+	}
+	return []int64{int64(k + 1), int64(10 * (k + 1))}
+}
 
 func (s *Session) runOp(op *Op) *OpResult {
 	res := &OpResult{Op: op}
 	s.Sim.Y("client.op")
-	if err := s.write(s.requestBytes(op)); err != nil {
-		res.ClientErr = fmt.Errorf("write request: %w", err)
-		return res
+	if !s.prewritten[op] {
+		if err := s.write(s.requestBytes(op)); err != nil {
+			res.ClientErr = fmt.Errorf("write request: %w", err)
+			return res
+		}
 	}
 	if op.Kind != "stream" {
 		st, err := hx.ReadStreamFn(s.CConn, s.resolve)
@@ -319,6 +396,11 @@ func (s *Session) runOp(op *Op) *OpResult {
 		res.Sent++
 		if cancel {
 			res.Cancelled = true
+			for j := 0; j < op.AfterCancel && err == nil; j++ {
+				extra := inputBatch(op, k+1+j, op.SecondCancel && j == op.AfterCancel-1)
+				err = iw.Write(extra)
+				extra.Release()
+			}
 		}
 		return err
 	}
